@@ -87,7 +87,7 @@ Print Assumptions C11_withdraw_surplus_keeps_books.
 Theorem C11_create_keeps_books : forall v s new s', create v s new = Ok s' -> Books s -> Books s' /\ s_bk s' = s_bk s /\ s_supply s' = s_supply s.
 Proof. exact create_books. Qed.
 Print Assumptions C11_create_keeps_books.
-Example C11_withdraw_ops_admitted : forall v, op_ok (OWithdraw [2; 1; 2; 1; 7] 3) /\ op_okE v (OWithdraw [] 1) /\ op_okE v (OCreate shell).
+Example C11_withdraw_ops_admitted : forall v, op_ok (OWithdraw [2; 1; 2; 1; 7] 3 [(4, 5)]) /\ op_okE v (OWithdraw [] 1 []) /\ op_okE v (OCreate shell).
 Proof. intros v. repeat split; discriminate. Qed.
 
 (* The same invariant at full strength for the tree as it is (EditBasket keeps the stored amount,
